@@ -223,6 +223,20 @@ CLAIMED['C02'] = dict(
    technique="Coq proof over Reals (interval arithmetic of rounding cells with Flocq, telescoping sums, Coquelicot series, trigonometric identities) + vm_compute correspondence of the float instance",
    ref="DESIGN.md section 3, C02")
 
+CLAIMED['C12'] = dict(
+   text="Theorems about the single-definition jump maps (Dens.v): for every list of draws, every scale and every numeric instance the "
+        "rejection loops of the bounded discrete and bounded normal families return only points within the bounds and refuse from "
+        "outside them; discrete proposals return integers and, without successive jumps, never the current one (over the reals the only "
+        "draw mapped to displacement 0 is 0.0, which the loop redraws); every proposed angle lies in [0, 2 pi); solid-angle proposals have "
+        "azimuth in [0, 2 pi) and polar angle in [0, pi]; uniform and log-normal births land where their own density is positive. The "
+        "float instance runs against real jump()/birth calls under scripted draws (typical, 8-37 sigma, denormal, exactly zero, cell "
+        "edges, thousands of consecutive misses), scales 1e-40..1e10 times the domain, boundary points and poles, all four solid-angle "
+        "conventions; membership and refusal are also checked directly, and proposed_position along adaptive runs.",
+   note=LAW_NOTE + "Binary64 effects at the faces (a wrapped angle of exactly 2 pi, cosines rounding outside [-1,1], the bounded eigenvector's "
+        "isclose tolerance) are explored on the implementation only.",
+   technique="Coq proof (induction over draw lists, interval reasoning over Reals) + vm_compute correspondence of the float instance",
+   ref="DESIGN.md section 3, C12")
+
 PENDING_REASON = "not yet claimed: model/theorems for this property are still being built (see DESIGN.md section 3); nothing is asserted about it"
 
 def main():
